@@ -174,11 +174,24 @@ def run(spec, R):
     # ---- Faults raised by user code
     for i in range(n):
         code, msg, det = gen_code(rng, kind), gen_message(rng), gen_detail(rng)
-        sub = rng.random() < .3
+        sub = rng.random() < .4
+        # a subclass may declare a class-level CODE the way the built-in errors do (its own, a prefix of the code raised, or one of
+        # the other family), and a subclass of such a class inherits it: the code given when raising is the one that travels
+        ccode = rng.choice((None, None, code, code.split('.')[0], '.'.join(code.split('.')[:2]), 'Client.Quota', 'Server.Quota'))
+        inherit = rng.random() < .3
 
-        def raise_fault(token, code=code, msg=msg, det=det, sub=sub):
-            cls = type('GenFault%d' % i, (Fault,), {'__namespace__': M.TNS}) if sub else Fault
+        def raise_fault(token, code=code, msg=msg, det=det, sub=sub, ccode=ccode, inherit=inherit):
+            cls = Fault
+            if sub:
+                d = {'__namespace__': M.TNS}
+                if ccode is not None:
+                    d['CODE'] = ccode
+                cls = type('GenFault%d' % i, (Fault,), d)
+                if inherit:
+                    cls = type('GenFault%dSub' % i, (cls,), {'__namespace__': M.TNS})
             raise cls(code, msg, detail=det)
+        if sub and ccode is not None:
+            R.count('fault_classes_with_code')
         beh['boom'] = raise_fault
         one(R, kind, wsgi, server, rec, 'fault', (code, msg or None, det), None, {'seed': spec['seed'], 'i': i, 'code': code, 'detail': det}, rng)
     # ---- dedicated errors
